@@ -274,6 +274,29 @@ where
             }
         }
     }
+    // several non-zero bytes whose XOR / sum cancels, equal bytes, all-ones body
+    for (i, j) in [(1usize, 2usize), (1, len - 1), (len / 2, len / 2 + 1), (len - 2, len - 1), (5, 40)] {
+        for v in [0x01u8, 0x5a, 0xff] {
+            let mut b = inf.clone();
+            b[i] = v;
+            b[j] = v;
+            cases.push(WireCase { bytes: b, class: "infinity flag with several non-zero bytes" });
+        }
+        let mut b = inf.clone();
+        b[i] = 0x01;
+        b[j] = 0x02;
+        b[(i + j) / 2 + 1] = 0x03;
+        cases.push(WireCase { bytes: b, class: "infinity flag with several non-zero bytes" });
+        let mut b = inf.clone();
+        b[i] = 0x80;
+        b[j] = 0x80;
+        cases.push(WireCase { bytes: b, class: "infinity flag with several non-zero bytes" });
+    }
+    let mut b = vec![0xffu8; len];
+    b[0] = inf[0] | 0x1f;
+    cases.push(WireCase { bytes: b.clone(), class: "infinity flag with several non-zero bytes" });
+    b[0] = inf[0];
+    cases.push(WireCase { bytes: b, class: "infinity flag with several non-zero bytes" });
     for _ in 0..n_random {
         let b: Vec<u8> = (0..len).map(|_| rng.next() as u8).collect();
         cases.push(WireCase { bytes: b, class: "uniformly random bytes" });
